@@ -496,7 +496,15 @@ func judge(c *lib.Ctx, terms *[]string, s *sessIn, p *played, a *lib.TLAsset) {
 	c.Count("session:" + s.Kind)
 	c.Count("session-mode:" + s.Cfg.Mode)
 	c.Count(fmt.Sprintf("session-steps:%02d", len(s.Events)))
-	fail := func(key, what string) { c.Fail(cid, key, what, s) }
+	beforeFirst := false
+	fail := func(key, what string) {
+		if beforeFirst && !strings.Contains(key, "before-first-segment") {
+			// everything that goes wrong in a session created before the first segment is complete is
+			// booked on that start condition (number -1, lastSegNrToSend == -1 == nextSegNr, ...)
+			key = "before-first-segment:" + key
+		}
+		c.Fail(cid, key, what, s)
+	}
 	if p == nil {
 		fail("harness:no-result", "no result for the session")
 		return
@@ -541,6 +549,7 @@ func judge(c *lib.Ctx, terms *[]string, s *sessIn, p *played, a *lib.TLAsset) {
 		startNr = s.Cfg.Snr
 	}
 	edge := liveEdge(ref, s.Cfg.StartS, now)
+	beforeFirst = edge < 0
 	timeMode := s.Cfg.Mode == "tlt"
 
 	// O1: init first, one per representation, nothing else before the first event
@@ -588,9 +597,9 @@ func judge(c *lib.Ctx, terms *[]string, s *sessIn, p *played, a *lib.TLAsset) {
 			if !eo.Returned {
 				switch {
 				case expectPuts && hungBy != "":
-					fail("hang:"+hungBy, fmt.Sprintf("step %d never returns: the session is stuck since a receiver answered a chunked PUT with an error", k))
+					fail("hang:"+hungBy, fmt.Sprintf("step %d is not taken (status %d): the session is stuck since a receiver answered a chunked PUT with an error", k, eo.Status))
 				case expectPuts:
-					fail("hang:step", fmt.Sprintf("step %d of a live session never returns", k))
+					fail("hang:step", fmt.Sprintf("step %d of a live session is not taken (status %d, 0 = no answer)", k, eo.Status))
 				default:
 					c.Count("api:step-after-end-blocks")
 				}
@@ -734,6 +743,11 @@ func judge(c *lib.Ctx, terms *[]string, s *sessIn, p *played, a *lib.TLAsset) {
 		}
 	}
 	c.Sample(map[string]any{"session": s, "final": o.Final, "reps": o.Reps})
+	if beforeFirst && timeMode {
+		// number -1 under $Time$ addressing (a request 2^32 segments ahead) is outside the model's domain
+		c.Count("session:before-first-time-mode-not-modelled")
+		return
+	}
 	*terms = append(*terms, sessTerm(id, s, o, reps, repIdx, ref, now))
 }
 
